@@ -180,6 +180,15 @@ func (e *s1end) closeLocked() error {
 func (e *s1end) SimSetDeadline(t time.Time) error {
 	w := e.w
 	w.mu.Lock()
+	if lag := w.resetLag; lag > 0 && t.IsZero() {
+		// the goroutine about to clear the deadline is descheduled for a moment first (any
+		// goroutine can be, between any two statements)
+		w.resetLag = 0
+		w.mu.Unlock()
+		time.Sleep(lag)
+		w.c.SimTime += lag
+		w.mu.Lock()
+	}
 	defer w.mu.Unlock()
 	if e.closed {
 		return errSimClosed
@@ -410,6 +419,7 @@ type s1world struct {
 	transportLost bool // a close fault was injected / Destroy called
 	fdSeq         int
 	curOp         int   // index of the API call in flight (set by the simulator)
+	resetLag      time.Duration // the next clearing of a deadline takes effect this much later (the caller is descheduled)
 	hostSendOps   []int // op index of every host->container message, in order
 	lastSrvRecvOp int   // op index whose message the server received last
 }
